@@ -323,10 +323,20 @@ fn place<I: ImageDrawable, T: DrawTarget<Color = I::Color, Error = SimError>>(
     target: &mut T,
 ) -> Result<(), SimError> {
     let p = Point::new(spec.at[0], spec.at[1]);
-    if spec.center {
-        Image::with_center(img, p).draw(target)
-    } else {
-        Image::new(img, p).draw(target)
+    // How the offset is arrived at is derived from the spec (no tape draw, old replay files keep
+    // their meaning): directly, or by constructing the image elsewhere and moving it with
+    // `Transform::translate` / `translate_mut` (an `Image` at offset o is an `Image` at offset o).
+    let how = (spec.at[0] as i64 * 3 + spec.at[1] as i64 * 5 + spec.w as i64 + spec.h as i64 * 7).rem_euclid(4);
+    let d = Point::new((spec.w % 7) as i32 - 3, (spec.h % 5) as i32 - 2);
+    let build = |at: Point| if spec.center { Image::with_center(img, at) } else { Image::new(img, at) };
+    match how {
+        2 => build(p - d).translate(d).draw(target),
+        3 => {
+            let mut im = build(p - d);
+            im.translate_mut(d).translate_mut(Point::zero());
+            im.draw(target)
+        }
+        _ => build(p).draw(target),
     }
 }
 
